@@ -62,6 +62,10 @@ type Exec struct {
 	recReads map[string]map[string]*smt.Term
 	recCtr   int
 	readLog  map[string]*smt.Term
+	loopParts map[string][]*Obligation
+	loopOrder []string
+	exitParts map[string][]*Obligation
+	exitOrder []string
 	idxTerms map[int]bool
 	idxOrder []*smt.Term
 }
@@ -343,6 +347,8 @@ func (ex *Exec) Run() {
 	ex.entrySt = st.clone()
 	fr.entry = ex.entrySt
 	rets, out, reach := ex.runFrame(fr, args, st, c.True())
+	ex.flushExitAsserts()
+	ex.flushLoopParts()
 	if out == nil {
 		return
 	}
@@ -742,11 +748,71 @@ func (ex *Exec) exitAsserts(fr *Frame, b *ssa.BasicBlock, st *State, cur *smt.Te
 		env := ex.envFor(fr, st, fr.entryState(ex), nil)
 		env.atBlock = b
 		env.atEnd = true
+		var rv []Val
+		for _, r := range ret.Results {
+			rv = append(rv, ex.val(fr, r))
+		}
+		ex.bindResults(env, fr.fn, rv)
 		label := cl.Label
 		if label == "" {
 			label = fmt.Sprintf("exit%d", n)
 		}
-		ex.obligeAlways("exit", label, cur, ex.evalBool(env, cl.E, cl), ret.Pos())
+		if ex.exitParts == nil {
+			ex.exitParts = map[string][]*Obligation{}
+		}
+		if _, seen := ex.exitParts[label]; !seen {
+			ex.exitOrder = append(ex.exitOrder, label)
+		}
+		ex.exitParts[label] = append(ex.exitParts[label], &Obligation{Kind: "exit", Guard: cur, Goal: ex.evalBool(env, cl.E, cl), NAssume: len(ex.assumes), Pos: ex.Prog.Fset.Position(ret.Pos())})
+	}
+}
+
+// obligePart records one part (one back edge) of a loop obligation; parts with the same name are merged
+// into a single obligation when the function has been executed, so names do not depend on the number of
+// back edges (continue statements).
+func (ex *Exec) obligePart(kind, anchor string, guard, goal *smt.Term, pos token.Pos, prefix string) {
+	if ex.quiet > 0 {
+		return
+	}
+	name := fmt.Sprintf("%s#%s:%s%s", ex.fnName(), kind, prefix, anchor)
+	if ex.loopParts == nil {
+		ex.loopParts = map[string][]*Obligation{}
+	}
+	if _, seen := ex.loopParts[name]; !seen {
+		ex.loopOrder = append(ex.loopOrder, name)
+	}
+	var p token.Position
+	if pos.IsValid() {
+		p = ex.Prog.Fset.Position(pos)
+	}
+	ex.loopParts[name] = append(ex.loopParts[name], &Obligation{Name: name, Kind: kind, Guard: guard, Goal: goal, NAssume: len(ex.assumes), Pos: p})
+}
+
+func (ex *Exec) flushLoopParts() {
+	for _, name := range ex.loopOrder {
+		parts := ex.loopParts[name]
+		if len(parts) == 1 {
+			ex.Obls = append(ex.Obls, parts[0])
+			continue
+		}
+		ex.Obls = append(ex.Obls, &Obligation{Name: name, Kind: parts[0].Kind, Guard: ex.W.C.True(), Goal: ex.W.C.True(), NAssume: parts[len(parts)-1].NAssume, Pos: parts[0].Pos, Parts: parts})
+	}
+}
+
+// flushExitAsserts turns the per-return-site parts of each exit assertion into one stably named obligation.
+func (ex *Exec) flushExitAsserts() {
+	for _, label := range ex.exitOrder {
+		parts := ex.exitParts[label]
+		ex.obligeAlways("exit", label, ex.W.C.True(), ex.W.C.True(), ex.Fn.Pos())
+		o := ex.Obls[len(ex.Obls)-1]
+		if len(parts) == 1 {
+			o.Guard, o.Goal, o.NAssume, o.Pos = parts[0].Guard, parts[0].Goal, parts[0].NAssume, parts[0].Pos
+			continue
+		}
+		for _, pt := range parts {
+			pt.Name = o.Name
+		}
+		o.Parts = parts
 	}
 }
 
@@ -980,11 +1046,11 @@ func (ex *Exec) backEdge(fr *Frame, li *loopInfo, from, h *ssa.BasicBlock, cond 
 	env := ex.loopEnv(fr, li, st, phiVals)
 	for i, cl := range li.invs {
 		goal := ex.evalBool(env, cl.E, cl)
-		ex.oblige("inv-preserved", ex.invLabel(li, cl, i), cond, goal, from.Instrs[len(from.Instrs)-1].Pos(), fr.prefix)
+		ex.obligePart("inv-preserved", ex.invLabel(li, cl, i), cond, goal, from.Instrs[len(from.Instrs)-1].Pos(), fr.prefix)
 	}
 	for _, ai := range ex.autoInvariants(fr, li, h) {
 		// auto invariants are monotone-counter facts; they are re-proved, never trusted
-		ex.oblige("inv-preserved", fmt.Sprintf("loop%d:auto:%s", li.ordinal, ai.name), cond, ai.build(phiVals), token.NoPos, fr.prefix)
+		ex.obligePart("inv-preserved", fmt.Sprintf("loop%d:auto:%s", li.ordinal, ai.name), cond, ai.build(phiVals), token.NoPos, fr.prefix)
 	}
 	for i, cl := range li.asserts {
 		aenv := ex.envFor(fr, st, fr.entryState(ex), nil)
@@ -994,7 +1060,7 @@ func (ex *Exec) backEdge(fr *Frame, li *loopInfo, from, h *ssa.BasicBlock, cond 
 		if label == "" {
 			label = fmt.Sprintf("assert%d", i+1)
 		}
-		ex.oblige("loop-assert", fmt.Sprintf("loop%d:%s", li.ordinal, label), cond, ex.evalBool(aenv, cl.E, cl), token.NoPos, fr.prefix)
+		ex.obligePart("loop-assert", fmt.Sprintf("loop%d:%s", li.ordinal, label), cond, ex.evalBool(aenv, cl.E, cl), token.NoPos, fr.prefix)
 	}
 	for i, cl := range li.decr {
 		v := ex.evalInt(env, cl.E, cl)
